@@ -9,6 +9,7 @@ import AL.Model.ConfigDecode
 import Driver.Util
 import AL.Model.Ignore
 import AL.Lemmas.C20DBase
+import AL.Model.ProjRun
 /-
   `parsewf <numbers> <node>`: the document node as an S-expression
       (k,tag,value,q,line,col,(children…))     k ∈ d s m c a   (document sequence mapping sCalar alias)
@@ -538,6 +539,42 @@ def handleShellVisitDoc : List String → String
             | some eff => (AL.Proc.shellcheckShell eff).getD "-"
             | none => "-"
           s!"{tool}/{if p then 1 else 0}"))
+    | _, _ => "bad-op"
+  | _ => "bad-op"
+
+end Driver.ParseWfD
+
+namespace Driver.ParseWfD
+open AL.Yaml AL.Ast AL.PW Driver
+
+/-- `callsrun <env> (<self hex|N> <numbers> <node>)…`: a RUN over several files of one project sharing the cache of
+reusable-workflow interfaces (AL.ProjRun.callsRun; AL.C10F): per file, in order, the diagnostics of rule workflow-call
+(`line:col:kind:code:args`, `;`-separated) and the sorted expression diagnostics the look-ups add (`code(args)`), as
+`W…#E…`, files separated by `|`. `<env>` as for `lintwfp` (its `self` is ignored: every file brings its own). -/
+def handleCallsRun : List String → String
+  | env :: rest =>
+    let rec files : List String → Option (List (AL.ProjRun.File × Cfg))
+      | [] => some []
+      | self :: nums :: node :: more => do
+        let ns : List Num ← match readSExp nums with
+          | some (.atom "E") => some []
+          | some (.list l) => l.mapM numOf
+          | _ => none
+        let n ← (readSExp node) >>= nodeOf
+        let sf : Option String ← if self = "N" then some none else (unhexStr self).map some
+        let cfg := cfgOf ns
+        let tl ← files more
+        pure (({ self := sf, wf := (parse cfg n).1 }, cfg) :: tl)
+      | _ => none
+    match (readSExp env) >>= envOf, files rest with
+    | some e, some fs =>
+      let p : AL.ProjRun.Proj := { hasProject := e.hasProject, disk := e.disk }
+      let out := AL.ProjRun.callsRun p Driver.lower (fs.map (·.1)) []
+      let esc (a : String) : String := (a.replace "\n" "\\n").replace "\r" "\\r"
+      "|".intercalate (out.map fun views =>
+        let w := views.flatMap (·.2.wc)
+        let ex := (views.flatMap (·.2.exprErrs)).map fun d => d.code ++ "(" ++ ",".intercalate (d.args.map fun a => hexStr (esc a)) ++ ")"
+        "W" ++ ";".intercalate (w.map diagS) ++ "#E" ++ ";".intercalate (ex.foldr insertStr []))
     | _, _ => "bad-op"
   | _ => "bad-op"
 
